@@ -550,7 +550,7 @@ func residentBytes() int64 {
 var partialResult func() []byte
 
 func startWatchdog(out string) {
-	limit := time.Duration(envInt("VERIF_RUN_WALL_LIMIT", 90)) * time.Second
+	limit := time.Duration(envInt("VERIF_RUN_WALL_LIMIT", 20)) * time.Second
 	go func() {
 		for {
 			time.Sleep(time.Second)
